@@ -696,9 +696,16 @@ def general_case(rng: random.Random, cid):
     for k in bio:
         prog.append(asg(f"F{k}", value()))
     desprog = []
+    zin = {}
+    if des:
+        # zero-order production terms (turnover: DADT(i) = KIN - KOUT*A(i)); at least one on a compartment with an output
+        for i in range(1, n + 1):
+            if rng.random() < 0.3 or (i == min(outs) and rng.random() < 0.6):
+                zin[i] = f"KIN{i}"
+                prog.append(asg(zin[i], value()))
     if des:
         for i in range(1, n + 1):
-            terms = []
+            terms = [("+", var(zin[i]))] if i in zin else []
             for (a, b), nm in sorted(rate_name.items()):
                 if b == i:
                     terms.append(("+", bin_("mul", var(nm), var(f"A({a})"))))
